@@ -107,7 +107,7 @@ def run_bin(name, args, lines=None, timeout=900, raw=False, env=None, pkg="vh"):
         raise RuntimeError(f"{name} {args} exited {p.returncode}: {p.stderr[-3000:]}")
     if raw:
         return p.stdout
-    return [json.loads(l) for l in p.stdout.splitlines() if l.strip()]
+    return [json.loads(l) for l in p.stdout.split("\n") if l.strip()]
 
 
 def run_bin_parallel(name, args, cases, shards=NCPU, timeout=900, pkg="vh"):
@@ -147,7 +147,7 @@ def run_bin_parallel(name, args, cases, shards=NCPU, timeout=900, pkg="vh"):
     for (rc, o, e), ch in zip(results, chunks):
         if rc != 0:
             raise RuntimeError(f"{name} {args} shard exited {rc}: {e[-3000:]}")
-        rs = [json.loads(l) for l in o.splitlines() if l.strip()]
+        rs = [json.loads(l) for l in o.split("\n") if l.strip()]
         if len(rs) != len(ch):
             raise RuntimeError(f"{name}: {len(rs)} results for {len(ch)} cases")
         per.append(rs)
